@@ -263,6 +263,10 @@ fn cancelled_then_committed(report: &mut Report, tier: Tier) {
                     if *n_base == 0 && pending != "add" {
                         continue;
                     }
+                    // with a single item "delete all but one" changes nothing: nothing would be pending
+                    if *n_base <= 1 && pending == "delete-all-but-one" {
+                        continue;
+                    }
                     let mut n = 0u64;
                     loop {
                         let s = Scratch::new("c06c");
@@ -404,6 +408,8 @@ pub fn c19(tier: Tier) -> i32 {
         Tier::Quick => {
             runs.push((c06_cfg(Metric::Euclidean, 2, 6, true), caps(25)));
             runs.push((c06_cfg(Metric::BqEuclidean, 3, 6, true), caps(25)));
+            // a metric whose leaf header depends on the vector: "an accepted append behaves exactly like adding"
+            runs.push((c06_cfg(Metric::Cosine, 2, 5, true), caps(15)));
         }
         Tier::Thorough => {
             for m in M7 {
@@ -415,8 +421,105 @@ pub fn c19(tier: Tier) -> i32 {
         c.obs.staleness = false;
     }
     run_txn(&mut report, "C19", runs);
-    report.cov("oracle", "at every state of the exploration (two indexes), each inside a nested transaction: add_item / append_item / by_vector with lengths {0, d-1, d+1, 2d, 1000} => InvalidVecDimension{expected, received}; append_item for ids around the maximum key of the whole database => InvalidItemAppend unless the key sorts after every key, and then the same dump as add_item; del_item of absent ids => Ok(false); raw dump byte-identical after every rejected call; the same expectations are applied to every transition of the exploration itself");
+    long_lived_writer(&mut report, tier);
+    report.cov("oracle", "one Writer value kept across every operation, commit and abort of every history up to the depth bound answers exactly like a fresh Writer per call (differential: outcomes and raw dumps); at every state of the exploration (two indexes), each inside a nested transaction: add_item / append_item / by_vector with lengths {0, d-1, d+1, 2d, 1000} => InvalidVecDimension{expected, received}; append_item for ids around the maximum key of the whole database => InvalidItemAppend unless the key sorts after every key, and then the same dump as add_item; del_item of absent ids => Ok(false); raw dump byte-identical after every rejected call; the same expectations are applied to every transition of the exploration itself");
     report.finish()
+}
+
+/// A `Writer` is a handle: what a call answers may depend on the database only. Every history over
+/// {append x3, add, delete x2, clear, commit, abort} up to the depth bound is executed twice with
+/// real transactions — through ONE `Writer` value kept for the whole history, and through a fresh
+/// `Writer` per call — and every outcome and the final raw dump must agree (differential oracle).
+fn long_lived_writer(report: &mut Report, tier: Tier) {
+    use crate::common::{arroy_db, dump, Scratch, Violation};
+    type D = arroy::distances::Euclidean;
+    #[derive(Clone, Copy, Debug, PartialEq)]
+    enum Op {
+        Append(u32),
+        Add(u32),
+        Del(u32),
+        Clear,
+        Commit,
+        Abort,
+    }
+    let alphabet = [Op::Append(5), Op::Append(3), Op::Append(9), Op::Add(3), Op::Del(5), Op::Del(9), Op::Clear, Op::Commit, Op::Abort];
+    let depth = if tier == Tier::Quick { 4 } else { 6 };
+    let vec_of = |id: u32| -> Vec<f32> { vec![id as f32 - 4.0, (id % 3) as f32 + 0.5] };
+    let a = Scratch::new("c19a");
+    let b = Scratch::new("c19b");
+    let apply = |w: &arroy::Writer<D>, wtxn: &mut heed::RwTxn, op: Op| -> String {
+        let r = crate::common::catch(|| match op {
+            Op::Append(id) => w.append_item(wtxn, id, &vec_of(id)).map(|_| "ok".to_string()),
+            Op::Add(id) => w.add_item(wtxn, id, &vec_of(id)).map(|_| "ok".to_string()),
+            Op::Del(id) => w.del_item(wtxn, id).map(|x| format!("{x}")),
+            Op::Clear => w.clear(wtxn).map(|_| "ok".to_string()),
+            Op::Commit | Op::Abort => unreachable!(),
+        });
+        match r {
+            Ok(Ok(x)) => x,
+            Ok(Err(e)) => format!("Err({})", crate::exec::ErrKind::of(&e).tag()),
+            Err(p) => format!("panic {}", p.message),
+        }
+    };
+    let mut histories = 0u64;
+    let mut seq = vec![0usize; depth];
+    let total = alphabet.len().pow(depth as u32);
+    for code in 0..total {
+        let mut c = code;
+        for s in seq.iter_mut() {
+            *s = c % alphabet.len();
+            c /= alphabet.len();
+        }
+        let run = |s: &Scratch, long_lived: bool| -> (Vec<String>, crate::common::Kv) {
+            {
+                let mut w = s.env.write_txn().unwrap();
+                s.db.clear(&mut w).unwrap();
+                w.commit().unwrap();
+            }
+            let kept = arroy::Writer::<D>::new(arroy_db::<D>(s.db), 0, 2);
+            let mut outs = Vec::new();
+            let mut wtxn = Some(s.env.write_txn().unwrap());
+            for &i in &seq {
+                match alphabet[i] {
+                    Op::Commit => {
+                        wtxn.take().unwrap().commit().unwrap();
+                        wtxn = Some(s.env.write_txn().unwrap());
+                        outs.push("commit".to_string());
+                    }
+                    Op::Abort => {
+                        wtxn.take().unwrap().abort();
+                        wtxn = Some(s.env.write_txn().unwrap());
+                        outs.push("abort".to_string());
+                    }
+                    op => {
+                        let fresh;
+                        let w = if long_lived {
+                            &kept
+                        } else {
+                            fresh = arroy::Writer::<D>::new(arroy_db::<D>(s.db), 0, 2);
+                            &fresh
+                        };
+                        outs.push(apply(w, wtxn.as_mut().unwrap(), op));
+                    }
+                }
+            }
+            let kv = dump(s.db, wtxn.as_ref().unwrap());
+            wtxn.take().unwrap().abort();
+            (outs, kv)
+        };
+        let (o1, d1) = run(&a, true);
+        let (o2, d2) = run(&b, false);
+        histories += 1;
+        if o1 != o2 || d1 != d2 {
+            let ops: Vec<String> = seq.iter().map(|i| format!("{:?}", alphabet[*i])).collect();
+            report.add_violation(Violation::new(
+                "RJ/writer-keeps-state",
+                format!("history {ops:?}: one Writer kept for the whole history answers {o1:?}, a fresh Writer per call answers {o2:?} (dumps equal: {})", d1 == d2),
+            ));
+            break;
+        }
+    }
+    report.cov("long_lived_writer_histories", histories);
 }
 
 // ------------------------------------------------------------------------------------------
@@ -568,6 +671,80 @@ fn c18_cfg_from(src: Metric, dim: usize, targets: &[Metric], depth: usize, popul
     }
 }
 
+/// "Removes the old forest" when the forest has no metadata: a first build is cancelled at poll n
+/// (every n) and committed all the same — the index then holds tree nodes but no metadata and still
+/// asks for a build —, then the metric is changed: no tree node and no metadata may remain, and the
+/// build under the new metric must give a valid forest (S, no leftover of the old metric).
+fn cancelled_then_changed(report: &mut Report, tier: Tier) {
+    use crate::common::{arroy_db, catch, Scratch, Violation};
+    use crate::exec::{exec, IndexTypes, Outcome};
+    use crate::layout::{decode_index, parse_key, KIND_METADATA, KIND_TREE};
+    let dim = 2usize;
+    let configs: Vec<(u32, usize, usize)> = if tier == Tier::Quick { vec![(10, 2, 1)] } else { vec![(10, 2, 1), (30, 3, 2), (7, 1, 1)] };
+    let mut positions = 0u64;
+    let mut with_nodes = 0u64;
+    let mut found: Option<Violation> = None;
+    crate::explore::in_single_thread_pool(|| {
+        'all: for (n_items, n_trees, cap) in &configs {
+            let mut n = 0u64;
+            loop {
+                let s = Scratch::new("c18c");
+                let mut types = IndexTypes::new();
+                types.insert(0, (Metric::Euclidean, dim));
+                let mut wtxn = s.env.write_txn().unwrap();
+                let mut expect = std::collections::BTreeSet::new();
+                for i in 0..*n_items {
+                    let v: Vec<u32> = vec![(((i * 7) % 11) as f32 - 5.5).to_bits(), (((i * 3) % 7) as f32 - 3.0).to_bits()];
+                    exec(s.db, &mut wtxn, &mut types, &Action::Add { index: 0, id: i, vec: v });
+                    expect.insert(i);
+                }
+                let (o, _) = exec(s.db, &mut wtxn, &mut types, &build(0, Some(*n_trees), Some(*cap), Some(n)));
+                if matches!(o, Outcome::Unit) {
+                    break;
+                }
+                wtxn.commit().unwrap();
+                positions += 1;
+                let mut wtxn = s.env.write_txn().unwrap();
+                let nodes_before = s.dump(&wtxn).iter().filter(|(k, _)| parse_key(k).map_or(false, |p| p.kind == KIND_TREE)).count();
+                if nodes_before > 0 {
+                    with_nodes += 1;
+                }
+                let what = format!("{n_items} items, first build ({n_trees} trees, capacity {cap}) cancelled from poll {n} on and committed ({nodes_before} tree nodes, no metadata), then euclidean -> manhattan");
+                let r = catch(|| -> Result<(), (String, String)> {
+                    let w = arroy::Writer::<arroy::distances::Euclidean>::new(arroy_db::<arroy::distances::Euclidean>(s.db), 0, dim);
+                    let w = w.prepare_changing_distance::<arroy::distances::Manhattan>(&mut wtxn).map_err(|e| ("MC/change-failed".to_string(), e.to_string()))?;
+                    let left: Vec<String> = s.dump(&wtxn).iter().filter_map(|(k, _)| parse_key(k).ok()).filter(|k| k.kind == KIND_TREE || (k.kind == KIND_METADATA && k.id == 0)).map(|k| format!("({},{},{})", k.index, k.kind, k.id)).take(8).collect();
+                    if !left.is_empty() {
+                        return Err(("MC/forest-left".into(), format!("after the change tree/metadata keys remain: {left:?}")));
+                    }
+                    let mut rng = <rand::rngs::StdRng as rand::SeedableRng>::seed_from_u64(verif_seed());
+                    w.builder(&mut rng).n_trees(*n_trees).split_after(*cap).build(&mut wtxn).map_err(|e| ("MC/build-failed".to_string(), e.to_string()))?;
+                    let kv = s.dump(&wtxn);
+                    let ix = decode_index(&kv, 0, Metric::Manhattan, dim).map_err(|e| ("F/undecodable".to_string(), e))?;
+                    crate::oracle::structure(&ix, &expect, Metric::Manhattan, dim).map(|_| ())
+                });
+                match r {
+                    Ok(Ok(())) => {}
+                    Ok(Err((c, m))) => {
+                        found = Some(Violation::new(c, format!("{what}: {m}")));
+                        break 'all;
+                    }
+                    Err(p) => {
+                        found = Some(Violation::new(format!("MC/panicked:{}", p.site()), format!("{what}: {} {}", p.location, p.message)));
+                        break 'all;
+                    }
+                }
+                n += 1;
+            }
+        }
+    });
+    if let Some(v) = found {
+        report.add_violation(v);
+    }
+    report.cov("cancelled_then_changed_positions", positions);
+    report.cov("cancelled_then_changed_with_tree_nodes", with_nodes);
+}
+
 pub fn c18(tier: Tier) -> i32 {
     let mut report = Report::new("C18", tier, "model_checking");
     report.assume("LMDB/heed; roaring; rayon");
@@ -590,6 +767,7 @@ pub fn c18(tier: Tier) -> i32 {
         }
     }
     run_txn(&mut report, "C18", runs);
-    report.cov("oracle", "every history of adds, overwrites, deletes, two build configurations and prepare_changing_distance to each of the 7 metrics (all 49 ordered pairs, chains included) on an index between two built neighbours, starting from an empty index and from one that already holds a five-item forest built with the automatic tree count: after the change the items and vectors equal the model as representable (API and raw leaf bytes), no tree or metadata key of the index remains, the index needs a build and no longer opens, the neighbours are byte-identical; same metric => dump unchanged; after the next build the structure oracle S and the exact-search oracle X hold under the new metric and opening under another metric fails");
+    cancelled_then_changed(&mut report, tier);
+    report.cov("oracle", "for every cancel position of a first build that is committed all the same (tree nodes without metadata), a metric change removes every tree node and the next build gives a valid forest without leftovers; every history of adds, overwrites, deletes, two build configurations and prepare_changing_distance to each of the 7 metrics (all 49 ordered pairs, chains included) on an index between two built neighbours, starting from an empty index and from one that already holds a five-item forest built with the automatic tree count: after the change the items and vectors equal the model as representable (API and raw leaf bytes), no tree or metadata key of the index remains, the index needs a build and no longer opens, the neighbours are byte-identical; same metric => dump unchanged; after the next build the structure oracle S and the exact-search oracle X hold under the new metric and opening under another metric fails");
     report.finish()
 }
